@@ -368,8 +368,11 @@ class AngularK(Kind):
 
     def ctor_kwargs(self, p, dt, dip):
         kw = dict(_dt_kwargs(p, dt))
-        kw['method'] = p.get('method', 'closed')
-        kw['order'] = int(p.get('order', 1))
+        if not (p.get('_dataless') and p.get('opts_per_call')):
+            # 'opts_per_call': the streaming object is created with the class defaults and the integration method and
+            # order are given on every call instead (both are documented parameters of update())
+            kw['method'] = p.get('method', 'closed')
+            kw['order'] = int(p.get('order', 1))
         if _q0(p) is not None:
             kw['q0'] = _q0(p)
         return kw
@@ -382,6 +385,8 @@ class AngularK(Kind):
         return o, np.asarray(o.Q)
 
     def step(self, inst, p, q, g, a, m, dt_call):
+        if p.get('opts_per_call'):
+            return inst.update(q, g, method=p.get('method', 'closed'), order=int(p.get('order', 1)), **_kw_dt(dt_call, inst.Dt))
         return inst.update(q, g, method=inst.method, order=inst.order, **_kw_dt(dt_call, inst.Dt))
 
 
@@ -666,9 +671,14 @@ def gen_params(rnd, kind, *, with_q0=True, defaults_prob=0.3):
         p['magnetic_ref'] = rnd.choice(['dip', 'dip', 'vector', 'default'])
         if rnd.random() < 0.5:
             p['weights'] = [rnd.choice([1.0, 0.5, 2.0, rnd.uniform(0.1, 3)]), rnd.choice([1.0, 0.5, rnd.uniform(0.1, 3)])]
+            if rnd.random() < 0.25:
+                # weights are only required to be non-negative: they need not be of order one
+                p['weights'] = rnd.choice([[10.0, 1.0], [1.0, 25.0], [100.0, 100.0], [0.01, 0.02], [1e3, 1.0]])
     elif kind == 'angular':
         p['method'] = rnd.choice(['closed', 'series'])
         p['order'] = rnd.randint(0, 6)
+        if rnd.random() < 0.4:
+            p['opts_per_call'] = True
     elif kind == 'fkf':
         if not default:
             for s in ('sigma_g', 'sigma_a', 'sigma_m'):
